@@ -148,7 +148,8 @@ Definition site_fn (n : Z) (key : str) (j : json) : res unit :=
   if Z.eqb n 15 then m15_site key j else if Z.eqb n 16 then m16_site j else if Z.eqb n 29 then m29_site j
   else if Z.eqb n 34 then m34_site j else if Z.eqb n 35 then m35_site j else m45_site j.
 Definition ws_fn (n : Z) (j : json) : bool :=
-  if Z.eqb n 16 then ws_m16 j else if Z.eqb n 35 then ws_m35 j else if Z.eqb n 45 then ws_m45 j else ws_obj j.
+  (* the harness keys its table by column name: widgetOptions (16 and 29) share the stricter shape *)
+  if Z.eqb n 16 || Z.eqb n 29 then ws_m16 j else if Z.eqb n 35 then ws_m35 j else if Z.eqb n 45 then ws_m45 j else ws_obj j.
 
 Definition check_site (n : Z) (key : str) (j : json) (raised : Z) (ws_py : bool) : bool :=
   match site_fn n key j with
